@@ -295,17 +295,29 @@ func (w *c18World) linearizable(ex *c18Exec) (bool, string) {
 		},
 		Equal: func(a, b interface{}) bool { return a.(uint32) == b.(uint32) },
 	}
-	var ops []porcupine.Operation
+	// The property speaks about every response on its own ("reflects only fully committed blocks"): it does not
+	// promise that two requests observe the sync height and the tables in one global order (the in-memory height
+	// is published after COMMIT returns, so get-sync-status may lag behind a table read that finished earlier).
+	// Each read is therefore checked against the commits alone.
+	var commits []porcupine.Operation
 	for _, e := range ex.events {
-		ret := e.ret
 		if strings.HasPrefix(e.input, "commit ") {
 			// a committed block may become visible to readers at any time AFTER the commit was issued
 			// (a stale answer reflects only committed blocks); it must never be visible BEFORE
-			ret = 1 << 60
+			commits = append(commits, porcupine.Operation{ClientId: e.client, Input: e.input, Output: e.output, Call: e.call, Return: 1 << 60})
 		}
-		ops = append(ops, porcupine.Operation{ClientId: e.client, Input: e.input, Output: e.output, Call: e.call, Return: ret})
 	}
-	if porcupine.CheckOperations(model, ops) {
+	allOK := true
+	for _, e := range ex.events {
+		if !strings.HasPrefix(e.input, "read ") {
+			continue
+		}
+		ops := append(append([]porcupine.Operation{}, commits...), porcupine.Operation{ClientId: e.client, Input: e.input, Output: e.output, Call: e.call, Return: e.ret})
+		if !porcupine.CheckOperations(model, ops) {
+			allOK = false
+		}
+	}
+	if allOK {
 		return true, ""
 	}
 	// explain: which heights would the read match
